@@ -13,7 +13,8 @@ from .common import DIMSETS, sym_mesh
 
 META = dict(
     bounds=dict(
-        quick=dict(ndim="1..3", n="<=3 per axis", nvdim="1..3", bc="'', one axis, all axes, 'neumann'", subregions="none / two / overlapping (cell-aligned, incl. fractional corners)",
+        quick=dict(also="legacy files with unsorted corners; typed attribute writes (attrs.create) in the stub",
+                   ndim="1..3", n="<=3 per axis", nvdim="1..3", bc="'', one axis, all axes, 'neumann'", subregions="none / two / overlapping (cell-aligned, incl. fractional corners)",
                    corner_typing="float (symbolic) or integer-typed region corners x integer- or float-typed subregion corners", labels="default / custom / scalar label / none",
                    unit="None / 'A/m'", dtype="float and complex (symbolic), int / float32 / bool natively"),
         thorough=dict(ndim="1..4", n="<=3 per axis", nvdim="1..4", bc="as quick", subregions="as quick", corner_typing="as quick", labels="as quick", unit="as quick", dtype="as quick"),
